@@ -91,9 +91,20 @@ NOTES = {
  'C13-geartrain-tie-relays-side2-back': 'gear train, both sides holding the same command (equal stamps): side 2 is relayed back over side 1; visible when v * ratio overflows (rebased onto the tree with fix D6, which it led to)',
  'C15-history-getter-zero-offset-not-restamped': 'GetterFromHistory with offset exactly 0 returns the history\'s datum without restamping it with now',
  'C17-to-dyn-ptrrwlock-arm-gated-on-callers-std-feature': '`#[cfg(feature = "std")]` on the PtrRwLock arm inside the macro body is evaluated in the CALLER: a std-using crate without a feature named std hits unimplemented!()',
+ 'C02-quotient-stamp-is-divisors': 'QuotientStream stamps its output with the divisor\'s time (`divisor.time.max(divisor.time)`): dividend strictly newer than the divisor',
+ 'C04-dt-as-u32-nanoseconds': 'PID interval narrowed to u32 nanoseconds: any interval of 2^32 ns (4.29 s) or more wraps',
+ 'C05-a2s-fromnone-does-not-reset': 'AccelerationToState treats an input `Error::FromNone` like an absent sample (returns it, keeps its state)',
+ 'C08-axle-single-informed-terminal-not-propagated': 'axle with exactly one informed terminal: `count > 1` guards the write-back loop as well as the division',
+ 'C12-ewmaq-dt-from-f32-seconds-of-absolute-stamps': 'Quantity EWMA computes dt as a difference of f32 seconds of the two absolute stamps: stamps far from zero',
+ 'C16-sum-reads-slot0-when-all-absent': 'SumStream with every input absent evaluates `value[0].assume_init()` before discarding it (`then_some` is eager): only the interpreter on the build without the poisoning hook sees it',
+ 'C19-std-only-round-in-time-from-seconds': 'std builds round, no_std builds truncate in `Time::try_from(Quantity seconds)`: durations below 2^23 ns with a fractional nanosecond count',
+ 'C20-actuator-skips-inner-update-when-terminal-sees-nothing': 'actuator wrapper returns before `inner.update()` when its terminal sees nothing (leading rounds, cut link)',
  'C19-libm-powf-whole-exponent-squaring': 'no_std+libm only: powf with a whole-number exponent by repeated squaring (dozens of ulps for large |n|, 0 for subnormal results)',
 }
 HISTORY = {
+ 'C19-std-only-round-in-time-from-seconds': 'caught by C19/thorough (a motion-profile boundary one nanosecond off) but MISSED by C19/quick: the seconds handed to `Time::try_from` were moderate values, '
+   'whose nanosecond counts have no fractional part in f32. Half of those conversions now use durations of a few ns to 8 ms with a .25 / .49 / .5 / .51 / .75 fractional nanosecond count, '
+   'of either sign. Caught at quick tier since.',
  'C13-geartrain-tie-relays-side2-back': 'MISSED at both tiers, and for a reason that turned out to be a defect of the ORIGINAL code: the relay oracles skipped value comparison whenever a tied copy was '
    'non-finite. Tightening them (among tied copies the finite one is the source; copies agree when either is the image of the other; a finite expectation requires a finite reading) reported the '
    'mirror image of the author\'s change on the UNCHANGED tree: ties were always relayed 1 -> 2, so a command issued on side 2 was overwritten by (v / ratio) * ratio on the next update (+-inf when '
